@@ -30,12 +30,12 @@ package slicecache
 // Ghost state comes from the assumed contracts of grailbio/base/file (fcloses/fdiscards: Close is the commit,
 // Discard the abort), of the upstream sliceio.Reader (lastN/lastErr/nreads) and of the encoder (nwrites/lastWErr).
 
-//@ spec func wtOpen(r *writethroughReader) bool = (r.file == nil && r.enc == nil && r.zw == nil) || (r.file != nil && r.enc != nil && r.zw != nil && r.file.fcloses == 0 && r.file.fdiscards == 0 && r.zw.zcloses == 0)
+//@ spec func wtOpen(r *writethroughReader) bool = (r.file == nil && r.enc == nil && r.zw == nil) || (r.file != nil && r.enc != nil && encOK(r.enc) && r.zw != nil && r.file.fcloses == 0 && r.file.fdiscards == 0 && r.zw.zcloses == 0)
 
 //@ func slicecache.(*writethroughReader).Read (ctx, frame) (n, err)
 //@   may_panic   -- the upstream reader runs user code
 //@   requires r != nil && r.Reader != nil && wtOpen(r)
-//@   requires frame.len >= 0 && frame.len <= frame.cap
+//@   requires wf(frame)
 //@   ensures  upstream-at-most-once: r.Reader.nreads <= old(r.Reader.nreads) + 1
 //@   ensures  transparent-n: implies(r.Reader.nreads == old(r.Reader.nreads) + 1, n == r.Reader.lastN)
 //@   ensures  transparent-err: implies(r.Reader.nreads == old(r.Reader.nreads) + 1, err == r.Reader.lastErr || (err != nil && (r.Reader.lastErr == nil || r.Reader.lastErr == sliceio.EOF)))
@@ -45,7 +45,7 @@ package slicecache
 //@   ensures  eof-means-committed: implies(err == sliceio.EOF, r.file != nil && r.file.fcloses == 1 && r.file.fcloseErr == nil && r.zw.zcloseErr == nil && r.file.fdiscards == 0)
 //@   ensures  abort-on-upstream-error: implies(r.Reader.nreads == old(r.Reader.nreads) + 1 && r.Reader.lastErr != nil && r.Reader.lastErr != sliceio.EOF, r.file.fdiscards == old(ite(r.file == nil, 0, r.file.fdiscards)) + 1 && r.file.fcloses == 0)
 //@   ensures  still-open-otherwise: implies(err == nil, wtOpen(r) && r.file != nil)
-//@   modifies r.file, r.zw, r.enc, SReader.nreads, SReader.lastN, SReader.lastErr, elems(frame.data), File.fsize, File.fcloses, File.fdiscards, File.fcloseErr, Writer.wcalls, Writer.wlastErr, Writer.wfile, WCloser.under, WCloser.zcloses, WCloser.zcloseErr, Encoder.nwrites, Encoder.lastWErr, Encoder.lastOff, Encoder.lastLen, Encoder.encw
+//@   modifies r.file, r.zw, r.enc, SReader.nreads, SReader.lastN, SReader.lastErr, ColMem, rowsSupplied, sawRowsWithEOF, wclock, wtok, Hash.hstart, encCalls, lastEncCol, lastEncLo, lastEncHi, File.fsize, File.fcloses, File.fdiscards, File.fcloseErr, Writer.wcalls, Writer.wlastErr, Writer.wfile, WCloser.under, WCloser.zcloses, WCloser.zcloseErr, Encoder.nwrites, Encoder.lastWErr, Encoder.lastOff, Encoder.lastLen, Encoder.encw
 
 //@ func slicecache.newFileReader
 //@   ensures result != nil
